@@ -285,7 +285,8 @@ def main(tier, seed, only=None):
     wide = dict(limits, b0=limits["b0"] + 1)
     few = [p for p in prunes if len(p) <= 1] if quick else prunes
     long_ = dict(limits, b0=7, bs=5, nodes=400000)
-    units = [(b, few, long_) if tuple(b) in ORDER_KEYS else (b, few, wide) if tuple(b) in REUSE_KEYS
+    one_dev = [p for p in prunes if len(p) <= 1]  # long instances: the same option sets in both tiers
+    units = [(b, one_dev, long_) if tuple(b) in ORDER_KEYS else (b, few, wide) if tuple(b) in REUSE_KEYS
              else (b, prunes, limits) for b in blocks]
     tasks = [((), [u]) for u in units if tuple(u[0]) in ORDER_KEYS] + \
         [((), ch) for ch in pool.chunks([u for u in units if tuple(u[0]) not in ORDER_KEYS], 2)]
